@@ -107,6 +107,38 @@ def sweep(tier: str) -> Sweep:
             sw.check(got == want and (fa == fb) == (want == 0) and (want != 0 or hash(fa) == hash(fb)), "local labels ordered / hashed differently from the reference", case, want, got)
         except Exception as e:  # noqa: BLE001
             sw.check(False, "comparison raised", case, want, f"{type(e).__name__}: {e}")
+    # one segment in every spelling: separator x tag x separator x number (and the implicit post `-N`), all ordered
+    # pairs against the reference - the tag and the number decide, never the separators
+    def seg_spellings(letters, implicit):
+        out = [""]
+        for s1 in ("", ".", "-", "_"):
+            for l in letters:
+                out.append(s1 + l)
+                for s2 in ("", ".", "-", "_"):
+                    for n_ in (0, 1, 2, 10):
+                        out.append(f"{s1}{l}{s2}{n_}")
+        if implicit:
+            out += ["-0", "-1", "-2", "-10"]
+        return out
+
+    kinds = [("post", seg_spellings(("post", "rev", "r"), True)), ("dev", seg_spellings(("dev",), False)),
+             ("pre", seg_spellings(("a", "b", "c", "rc", "alpha", "beta", "pre", "preview"), False))]
+    for kind, sp in kinds:
+        bases = ("1.0", "1!2.3.4rc1") if kind != "pre" else ("1.0",)
+        for base in bases:
+            objs = [(s_, fm_parse(s_), ref_parse(s_)) for s_ in (base + t for t in sp)]
+            objs = [t for t in objs if t[1] is not None and t[2] is not None]
+            if tier == "quick" and len(objs) > 110:
+                objs = objs[:1] + r.sample(objs[1:], 109)
+            for (sa, fa, ra), (sb, fb, rb) in itertools.product(objs, objs):
+                want = sign((ra > rb) - (ra < rb))
+                case = {"a": sa, "b": sb, "clause": "order-segment"}
+                sw.note(["order-segment", sa, sb], "segment-" + kind)
+                try:
+                    got = sign(fa.compare(fb))
+                    sw.check(got == want and (fa == fb) == (want == 0), "a segment's spellings are ordered differently from the reference", case, want, got)
+                except Exception as e:  # noqa: BLE001
+                    sw.check(False, "comparison raised", case, want, f"{type(e).__name__}: {e}")
     return sw
 
 
